@@ -47,6 +47,21 @@ pub fn vcdc_prefill_window(rabin: &mut Rabin64, v: &Vec<u8>, a: usize, b: usize)
         final(rabin).inv(),
 { unimplemented!() }
 
+// rustic_cdc::Rabin64::reset_and_prefill_window ("combines a reset with a prefill in an optimized way"), contract read
+// from rustic_cdc-0.3.1: it zeroes the hash and ONE ring slot only and keeps the ring position, i.e. it is equivalent to
+// reset + prefill only if the ring already holds zeros.  k = bytes consumed (at most 63): the hash is that of a fresh
+// window, the ring keeps 63 - k stale bytes.
+#[verifier::external_body]
+pub fn vcdc_reset_and_prefill_window(rabin: &mut Rabin64, v: &Vec<u8>, a: usize, b: usize)
+    requires a <= b <= v@.len(), old(rabin).window@.len() == 64,
+    ensures
+        final(rabin).poly@ == old(rabin).poly@,
+        ({ let bytes = v@.subrange(a as int, b as int);
+           let k = if bytes.len() < 63 { bytes.len() as int } else { 63 };
+           final(rabin).window@ == seq![0u8] + old(rabin).window@.subrange(k + 1, 64) + bytes.subrange(0, k)
+           && final(rabin).hash == FP(old(rabin).poly@, prefill_win(bytes)) }),
+{ unimplemented!() }
+
 #[verifier::external_body]
 pub fn vcdc_slide(rabin: &mut Rabin64, byte: u8)
     requires old(rabin).inv(),
